@@ -39,6 +39,8 @@ class _Stop(BaseException):
     """The harness asked to stop the current path (after a finding)."""
 
 
+import os as _os
+_DEBUG_SLOW = float(_os.environ.get('VERIF_DEBUG_SLOW', '0') or 0)
 ENG = None  # the engine of the running exploration (one per process)
 
 
@@ -192,6 +194,9 @@ class Engine:
         t = time.time()
         r = s2.check()
         self._count(r, time.time() - t)
+        if _DEBUG_SLOW and time.time() - t > _DEBUG_SLOW:
+            import sys as _sys
+            print('SLOW %.1fs %s: %s' % (time.time() - t, r, str(constraints[-1])[:300].replace('\n', ' ')), file=_sys.stderr)
         return r, s2
 
     def _push(self, c):
@@ -425,7 +430,9 @@ class Engine:
                 out[name] = model_value(m, v)
         return out
 
-    def nice_model(self, goal_extra=(), denominators=(1, 2, 4, 8, 64, 1024)):
+    nice_timeout_ms = 2000
+
+    def nice_model(self, goal_extra=(), denominators=(1, 2, 8, 1024)):
         """try to find a model of pc /\\ goal_extra whose real inputs are dyadic rationals
         (exactly representable doubles), so that ties and borders survive replay."""
         reals = [v for v in self.inputs.values() if not isinstance(v, float) and v.sort() == z3.RealSort()]
@@ -437,7 +444,7 @@ class Engine:
                 k = z3.Int('dy!' + v.decl().name())
                 ks.append(k)
                 cs.append(v * d == z3.ToReal(k))
-            r, s2 = self._fresh_check(base + cs, 4000)
+            r, s2 = self._fresh_check(base + cs, self.nice_timeout_ms)
             if r == z3.sat:
                 m = s2.model()
                 if self._model_ok(m, base):
